@@ -1182,7 +1182,9 @@ theorem cf_eq (s : Stmt) : ∀ (cur : Nat) (lab : Option Label) (ctx : List BI) 
     have h1 := EqR.emit hi (Instr.loadVal v)
     have h2 := EqR.emit h1.inv Instr.throw
     exact h1.trans h2
-  | fatal => intro cur lab ctx cs hst; simp [stage1] at hst
+  | fatal =>
+    intro cur lab ctx cs _ _ hi _
+    simpa [compileCF, gen] using EqR.emit hi Instr.fatal
   | tryS i b hasC c hasF f ihb ihc ihf =>
     intro cur lab ctx cs hst _ hi hnop
     simp only [stage1, Bool.and_eq_true] at hst
